@@ -673,8 +673,8 @@ int main()
                 bad();
                 continue;
             }
-            if (x->kind == 'W')
-                x->space->setup();  // copies the wrapped space's location tables
+            if (x->kind == 'W' || !zeroExt(x))
+                x->space->setup();  // the documented way (a wrapper copies the wrapped space's location tables)
             else
                 x->space->computeLocations();  // setup() refuses zero-extent components
             spaces[*natAt(1)] = x;
@@ -706,11 +706,168 @@ int main()
             }
             n->nm = *natAt(3);
             static_cast<ob::StateSpace *>(n->space.get())->setName(nameOf(n->nm));
-            if (sp->second->kind == 'W')
+            if (sp->second->kind == 'W' || !zeroExt(sp->second))
                 sp->second->space->setup();
             else
                 sp->second->space->computeLocations();
             std::cout << spaceLine(sp->second) << std::endl;
+        }
+        else if (op == "evolve" && t.size() >= 3 && natAt(1))
+        {
+            // history: a space that was set up (and used) CHANGES — addDimension, addSubspace at any depth (also below a
+            // wrapper), setName, lock, setSubspaceWeight — and is set up again.  Its states are released first (they were
+            // allocated for the old structure).  Edits: dim <nm> | dimn <nm> <dimension name> | sub <nm> <space> |
+            // name <old> <new> | lock <nm> | w <nm> <i> | setup | compute
+            auto sp = spaces.find(*natAt(1));
+            if (sp == spaces.end() || (pds && pds->spid == *natAt(1)))
+            {
+                bad();
+                continue;
+            }
+            for (auto it = states.begin(); it != states.end();)
+                if (it->second.spid == *natAt(1))
+                {
+                    sp->second->space->freeState(it->second.st);
+                    it = states.erase(it);
+                }
+                else
+                    ++it;
+            NodeP root = sp->second;
+            std::function<Node *(const NodeP &, unsigned long long)> find = [&](const NodeP &n, unsigned long long nm) -> Node * {
+                if (n->nm == nm)
+                    return n.get();
+                for (auto &k : n->kids)
+                    if (Node *r = find(k, nm))
+                        return r;
+                return nullptr;
+            };
+            bool ok = true;
+            size_t i = 2;
+            auto natTok = [&](unsigned long long &out) {
+                if (i >= t.size())
+                    return false;
+                auto v = vp::parseNat(t[i++]);
+                if (!v)
+                    return false;
+                out = *v;
+                return true;
+            };
+            unsigned refused = 0;
+            while (ok && i < t.size())
+            {
+                std::string e = t[i++];
+                unsigned long long a = 0, b = 0;
+                if (e == "setup")
+                {
+                    if (root->kind == 'W' || !zeroExt(root))
+                        root->space->setup();
+                    else
+                        root->space->computeLocations();
+                }
+                else if (e == "compute")
+                {
+                    if (root->kind == 'W')
+                        root->space->setup();  // a wrapper's own tables are only refreshed by setup()
+                    else
+                        root->space->computeLocations();
+                }
+                else if (e == "dim" || e == "dimn")
+                {
+                    ok = natTok(a) && (e == "dim" || natTok(b));
+                    Node *n = ok ? find(root, a) : nullptr;
+                    if (!n || n->kind != 'R')
+                        ok = false;
+                    else
+                    {
+                        auto *rv = n->space->as<ob::RealVectorStateSpace>();
+                        if (e == "dim")
+                            rv->addDimension(-1.0, 1.0);
+                        else
+                            rv->addDimension(nameOf(b), -1.0, 1.0);
+                        n->n++;
+                    }
+                }
+                else if (e == "sub")
+                {
+                    ok = natTok(a);
+                    NodeP c = ok ? parseSp(t, i) : nullptr;
+                    Node *n = c ? find(root, a) : nullptr;
+                    if (!n || n->kind != 'C')
+                        ok = false;
+                    else
+                    {
+                        try
+                        {
+                            n->space->as<ob::CompoundStateSpace>()->addSubspace(c->space, 1.0);
+                            n->kids.push_back(c);
+                        }
+                        catch (ompl::Exception &)
+                        {
+                            ++refused;  // locked
+                        }
+                    }
+                }
+                else if (e == "name")
+                {
+                    ok = natTok(a) && natTok(b);
+                    Node *n = ok ? find(root, a) : nullptr;
+                    if (!n)
+                        ok = false;
+                    else
+                    {
+                        n->nm = b;
+                        static_cast<ob::StateSpace *>(n->space.get())->setName(nameOf(b));
+                    }
+                }
+                else if (e == "lock")
+                {
+                    ok = natTok(a);
+                    Node *n = ok ? find(root, a) : nullptr;
+                    if (!n || n->kind != 'C')
+                        ok = false;
+                    else
+                        n->space->as<ob::CompoundStateSpace>()->lock();
+                }
+                else if (e == "w")
+                {
+                    ok = natTok(a) && natTok(b);
+                    Node *n = ok ? find(root, a) : nullptr;
+                    if (!n || n->kind != 'C')
+                        ok = false;
+                    else if (b < n->kids.size())
+                        n->space->as<ob::CompoundStateSpace>()->setSubspaceWeight((unsigned)b, 2.5);
+                }
+                else
+                    ok = false;
+            }
+            if (!ok)
+            {
+                bad();
+                continue;
+            }
+            // every entry of getValueLocationsByName(), through getValueAddressAtName, identified by the harness' own walk
+            std::string vn;
+            {
+                ob::State *st = root->space->allocState();
+                auto rs = refs(root, st);
+                std::vector<std::pair<unsigned long long, std::string>> ent;
+                for (const auto &e : root->space->getValueLocationsByName())
+                {
+                    double *p = root->space->getValueAddressAtName(st, e.first);
+                    std::string a = p ? "?" : "null";
+                    for (auto &r : rs)
+                        if (p && r.d == p)
+                            a = r.path;
+                    ent.emplace_back(numOf(e.first), a);
+                }
+                std::sort(ent.begin(), ent.end());
+                for (size_t k = 0; k < ent.size(); ++k)
+                    vn += (k ? ";" : "") + std::to_string(ent[k].first) + ":" + ent[k].second;
+                if (vn.empty())
+                    vn = "-";
+                root->space->freeState(st);
+            }
+            std::cout << spaceLine(root) << " # refused=" << refused << " vn=" << vn << std::endl;
         }
         else if (op == "state" && natAt(1) && natAt(2))
         {
